@@ -146,8 +146,9 @@ def verify_subscript(
                     raise KeyError('slice definition cannot contain more than one ellipsis')
 
         if ellipsis_location is not None:
-            if len(subscript) > ndim:
-                raise ValueError('More subscript entries ({}) than shape dimensions ({}).'.format(len(subscript), ndim))
+            # NB: the ellipsis may stand for no dimensions at all
+            if len(subscript) - 1 > ndim:
+                raise ValueError('More subscript entries ({}) than shape dimensions ({}).'.format(len(subscript) - 1, ndim))
 
             if ellipsis_location == len(subscript)-1:
                 subscript = subscript[:ellipsis_location]
